@@ -69,8 +69,42 @@ func eiQuoteShort(text string) string {
 var eiReErrLoc = regexp.MustCompile(regexp.QuoteMeta(eiFile) + `:(\d+):(\d+)`)
 var eiReErrTok = regexp.MustCompile(`: "([^"\n]*)"$`)
 
+// eiHostileNames: file names a caller may pass; the error must name them literally.
+var eiHostileNames = []string{"my%20network.dbc", "load_100%.dbc", "can%d_%s.dbc", "%v%!.dbc", "dir with space/f.dbc", "é\u00a0ü.dbc", "", "%"}
+
+// checkErrFileName: the same text under another file name gives the same error with that
+// name in the place of the first (the name is data, never a format).
+func (c *eiCtx) checkErrFileName(label, text string, err error) {
+	h := 0
+	for i := 0; i < len(text); i++ {
+		h = h*31 + int(text[i])
+	}
+	if h < 0 {
+		h = -h
+	}
+	name := eiHostileNames[h%len(eiHostileNames)]
+	var err2 error
+	func() {
+		defer func() {
+			if r := recover(); r != nil {
+				c.fail("C09", "c09-panic:parse:"+eiFirst(sprintf("%v", r), 50), sprintf("%s: dbc.Parse panics under file name %q: %v; text %s", label, name, r, eiQuoteShort(text)))
+			}
+		}()
+		_, err2 = dbc.Parse(name, strings.NewReader(text), false)
+	}()
+	if err2 == nil {
+		c.fail("C09", "c09-error-location:file-name", sprintf("%s: rejected under file name %q but accepted under %q; text %s", label, eiFile, name, eiQuoteShort(text)))
+		return
+	}
+	want := strings.Replace(err.Error(), eiFile+":", name+":", 1)
+	if err2.Error() != want {
+		c.fail("C09", "c09-error-location:file-name", sprintf("%s: under file name %q the error reads %q, expected %q; text %s", label, name, err2.Error(), want, eiQuoteShort(text)))
+	}
+}
+
 // checkErrLoc: a syntax error carries file:line:col of the offending token.
 func (c *eiCtx) checkErrLoc(label, text string, err error) {
+	c.checkErrFileName(label, text, err)
 	msg := err.Error()
 	m := eiReErrLoc.FindStringSubmatch(msg)
 	if m == nil {
